@@ -3,6 +3,7 @@ package main
 import (
 	"go/ast"
 	"go/token"
+	"strings"
 )
 
 // noResponseClassSwitch recognises, in message/noresponse/noresponse.go: IsNoResponseCode,
@@ -80,6 +81,46 @@ func noResponseClassSwitch(repo string) (uint64, [][2]uint64) {
 		fail("IsNoResponseCode: if body does not return ErrMessageNotInterested")
 	}
 	return shift, bits
+}
+
+// noResponseWriterShape reads net/responsewriter/responseWriter.go:
+//
+//	eager    - New itself looks the No-Response option up (a call `<x>.GetUint32(message.NoResponse)` in New) and SetResponse
+//	           does not look at the request's options at all (the value is a snapshot taken when the request arrived: what a
+//	           handler does to its request object afterwards cannot matter)
+//	wholeList - the lookup goes through Options.GetUint32 (binary search over the whole list), not through an index expression
+func noResponseWriterShape(repo string) (eager bool, wholeList bool) {
+	fset, f := parseFile(repo, "net/responsewriter/responseWriter.go")
+	calls := func(fd *ast.FuncDecl) (getNoResp int, indexExprs int, mentionsReqOpts bool) {
+		ast.Inspect(fd.Body, func(n ast.Node) bool {
+			switch x := n.(type) {
+			case *ast.CallExpr:
+				if sel, ok := x.Fun.(*ast.SelectorExpr); ok && sel.Sel.Name == "GetUint32" && len(x.Args) == 1 &&
+					c09ExprText(fset, x.Args[0]) == "message.NoResponse" {
+					getNoResp++
+				}
+			case *ast.IndexExpr:
+				if t := c09ExprText(fset, x.X); t == "requestOptions" || t == "reqOpts" || strings.HasSuffix(t, ".requestOptions") {
+					indexExprs++ // an option picked by position
+				}
+			case *ast.Ident:
+				if x.Name == "requestOptions" || x.Name == "reqOpts" {
+					mentionsReqOpts = true
+				}
+			case *ast.SelectorExpr:
+				if x.Sel.Name == "requestOptions" {
+					mentionsReqOpts = true
+				}
+			}
+			return true
+		})
+		return
+	}
+	nNew, idxNew, _ := calls(funcDecl(f, "", "New"))
+	nSet, _, mentSet := calls(funcDecl(f, "ResponseWriter", "SetResponse"))
+	eager = nNew == 1 && nSet == 0 && !mentSet
+	wholeList = nNew+nSet >= 1 && idxNew == 0
+	return
 }
 
 func intLitOK(e ast.Expr) uint64 {
